@@ -367,6 +367,34 @@ theorem unknown_kwarg_is_rejected (names : List Key) (cmd map : Dict) (c : Call)
     | nil => simp [keys] at this
     | cons x xs => simp
 
+/-- Positional arguments: a job knows its declared positional names plus at most ONE trailing
+`max_samples`.  Two or more positional arguments beyond the declared names always make
+`_handle_params` raise (whatever the dictionaries and keyword arguments are). -/
+theorem surplus_positional_is_rejected (names : List Key) (cmd map : Dict) (c : Call)
+    (h : names.length + 2 ≤ c.args.length) : (handleParams names cmd map c).2.2 ≠ none := by
+  rw [handleParams_eq]
+  have hlen : names.length < (popExtra names map c.args).2.length := by
+    rw [popExtra_length names map c.args (by omega)]; omega
+  have hp := posArgs_surplus c.kwargs names (popExtra names map c.args).2 cmd hlen
+  split
+  · simp
+  · next hn => exact absurd hn hp
+
+/-- The rejection is of the right kind: never "accepted with the surplus dropped" — the positional
+loop raises before the keyword arguments are even looked at, so nothing of the call is routed to the
+mapping dictionary beyond the popped last argument. -/
+theorem surplus_positional_raises_in_loop (names : List Key) (cmd map : Dict) (c : Call)
+    (h : names.length + 2 ≤ c.args.length) :
+    (handleParams names cmd map c).2.2 = some .index ∨ (handleParams names cmd map c).2.2 = some .twice := by
+  rw [handleParams_eq]
+  have hlen : names.length < (popExtra names map c.args).2.length := by
+    rw [popExtra_length names map c.args (by omega)]; omega
+  have hp := posArgs_surplus c.kwargs names (popExtra names map c.args).2 cmd hlen
+  have hk := posArgs_exc c.kwargs names (popExtra names map c.args).2 cmd
+  split
+  · next e he => rw [he] at hk; simpa using hk
+  · next hn => exact absurd hn hp
+
 /-- Whenever `_handle_params` raises, the execute call raises, no task is started and the job stays as
 it was (WAITING, task not entered): it can still be executed properly afterwards. -/
 theorem unknown_args_rejected_before_start (fixed : Bool) (cfg : Cfg) (w : List Ev) (c : Call)
@@ -405,5 +433,32 @@ example : (handleParams [1] [] [] { args := [some 5], kwargs := [(6, some 1)], c
 example : (outs true cfg0 [.execSync { args := [some 5], kwargs := [(6, some 1)], cbKw := false },
     .execSync call0, .tStart, .tReturn ret0]) =
     [.exc .unused, .accepted, .started [(1, some 5)], .finished (some (.val ret0))] := by decide
+
+/-- History level: in ANY state reached by ANY history, an execute call carrying an unknown keyword
+argument or two or more surplus positional arguments is refused, starts nothing and leaves status,
+phase and the number of task entries as they were. -/
+theorem unknown_args_never_start_the_task (fixed : Bool) (cfg : Cfg) (w : List Ev) (c : Call) (async : Bool)
+    (hunk : cfg.paramNames.length + 2 ≤ c.args.length ∨
+      ∃ k, k ∈ keys c.kwargs ∧ k ∉ keys (after fixed cfg w).command ∧ k ∉ cfg.paramNames ∧
+        k ∉ keys (after fixed cfg w).mapping ∧ k ≠ maxSamples) :
+    let e := if async then Ev.execAsync c else Ev.execSync c
+    (step fixed cfg (after fixed cfg w) e).2 ≠ .accepted ∧
+    (step fixed cfg (after fixed cfg w) e).1.phase = (after fixed cfg w).phase ∧
+    (step fixed cfg (after fixed cfg w) e).1.status = (after fixed cfg w).status ∧
+    (step fixed cfg (after fixed cfg w) e).1.fnCalls = (after fixed cfg w).fnCalls := by
+  apply unknown_args_rejected_before_start
+  rcases hunk with h | ⟨k, hk, h1, h2, h3, h4⟩
+  · exact surplus_positional_is_rejected _ _ _ _ h
+  · exact unknown_kwarg_is_rejected _ _ _ _ k hk h1 h2 h3 h4
+
+/-- two surplus positionals: `LocalJob(f, command_param_names=['k1']).execute_sync(5, 6, 7)` -/
+example : (handleParams [1] [] [] { args := [some 5, some 6, some 7], kwargs := [], cbKw := false }).2.2 = some .index := by
+  decide
+/-- ONE surplus positional is not unknown: it is the trailing `max_samples` -/
+example : (handleParams [1] [] [] { args := [some 5, some 6], kwargs := [], cbKw := false }) =
+    ([(1, some 5)], [(maxSamples, some 6)], none) := by decide
+example : (outs true cfg0 [.execAsync { args := [some 5, some 6, some 7], kwargs := [], cbKw := false }, .statusQuery,
+    .execSync call0, .tStart, .tReturn ret0]) =
+    [.exc .index, .status .waiting .none 0, .accepted, .started [(1, some 5)], .finished (some (.val ret0))] := by decide
 
 end PM.C18
